@@ -110,3 +110,11 @@ Proof.
 Qed.
 
 End LwwProofs.
+
+(* both halves of "exactly the last value of every live key, nothing else", as one statement *)
+Theorem index_fold_is_lww (K D : Type) (keqb : K -> K -> bool) :
+  (forall a b, keqb a b = true <-> a = b) ->
+  forall es k,
+    mget K D keqb (replay K D keqb es) k = lww_get K D keqb (writes_of K D es) k /\
+    NoDup (mkeys K D (replay K D keqb es)).
+Proof. intros H es k. split; [exact (replay_lww K D keqb H es k) | exact (replay_nodup K D keqb H es)]. Qed.
